@@ -179,7 +179,7 @@ func (r *Report) write(verifDir2, tier string, seed int64, wall float64, c *Ctx,
 		}
 	}
 	cov := map[string]interface{}{
-		"explanation":     explanation,
+		"explanation":     explanation + " The text names the rules the check started with; every rule applied in this run, including those added later, is listed with its own statement, instance count and floor under 'rules'.",
 		"not_decided":     notDecided,
 		"obligations":     total,
 		"discharged":      disch,
